@@ -65,6 +65,17 @@ CHECKS = {
         note='Structural equality defined in vf/core/lib.py; constructor rejections and wire-cannot-carry cases are '
              'counted per class in the evidence.',
         design='3 (C01)'),
+    'C12': dict(
+        technique='model-based stateful testing with Hypothesis: generated operation lists over the MutableSequence '
+                  'interface are interpreted against the real vector and a plain-list model; invariants after every '
+                  'step (items == model, body size within bounds computed independently, prefix == body length, '
+                  'edited vector == freshly built vector, compose/parse round trip)',
+        text='40 vector classes x 150 (thorough 3000) histories of up to 30 (80) operations including slice and bulk '
+             'edits, negative/out-of-range positions and histories that touch both size bounds; refused edits must '
+             'leave the vector unchanged. Sampling of histories; ceilings of 2^24-1 and 2^32-1 are not touched.',
+        note='Bounds are those declared by get_param(); item sizes are recomputed from the items without the '
+             'vector\'s own bookkeeping.',
+        design='3 (C12)'),
 }
 
 NOT_YET = {}
